@@ -27,6 +27,15 @@ type wNode struct {
 var wLocs = []string{"", "m"}
 
 func wPkgAddr(i int) sourceaddrs.RemotePackage {
+	if i == 0 {
+		// the first package's address is assembled from parts, with a host name that is not all
+		// lower case: it is the same package however it is later printed and parsed back
+		src, err := sourceaddrs.MakeRemoteSource("git", &url.URL{Scheme: "https", Host: "H", Path: "/p0.git"}, "")
+		if err != nil {
+			panic(err)
+		}
+		return src.Package()
+	}
 	a, err := sourceaddrs.ParseRemotePackage("git::https://h/p" + string(rune('0'+i)) + ".git")
 	if err != nil {
 		panic(err)
